@@ -48,10 +48,17 @@ fn ctors() -> Vec<(&'static str, Ctor, usize, usize)> {
 fn judge_frame(case: &Case, l: &mut Local) {
     let mk = || serde_json::to_value(case).unwrap();
     let vs = vecs();
-    let (a, b) = (vs[case.a], vs[case.b]);
-    let parallel = a.cross(&b).norm() < 1e-12;
+    let (a0, b0) = (vs[case.a], vs[case.b]);
+    let parallel = a0.cross(&b0).norm() < 1e-12;
     let axes = [Vector3::x(), Vector3::y(), Vector3::z()];
-    l.bucket(if parallel { "parallel pair" } else if a.dot(&b) == 0.0 { "orthogonal pair" } else { "oblique pair" });
+    l.bucket(if parallel { "parallel pair" } else if a0.dot(&b0) == 0.0 { "orthogonal pair" } else { "oblique pair" });
+    // the arguments are directions: their lengths (the difference of two points 1e-11 apart, a lever of 1e8) must
+    // not matter
+    for (sa, sb) in [(1.0, 1.0), (1e-11, 1.0), (1.0, 1e-11), (1e-11, 1e-11), (1e8, 1e-3)] {
+    let (a, b) = (a0 * sa, b0 * sb);
+    if sa != 1.0 || sb != 1.0 {
+        l.bucket("vector pair of very different or very small lengths");
+    }
     for (name, ctor, pi, si) in ctors() {
         for origin in [None, Some(Point3::new(1.0, 2.0, 3.0))] {
             l.eval();
@@ -89,6 +96,7 @@ fn judge_frame(case: &Case, l: &mut Local) {
                 }
             }
         }
+    }
     }
 }
 
@@ -189,7 +197,7 @@ fn exact_rank3(p: &[Point3]) -> usize {
     }
 }
 
-const WEIGHTS: [[f64; 5]; 4] = [[1.0, 1.0, 1.0, 1.0, 1.0], [2.0, 2.0, 2.0, 2.0, 2.0], [1.0, 2.0, 0.5, 3.0, 1.5], [3.0, 6.0, 1.5, 9.0, 4.5]];
+const WEIGHTS: [[f64; 6]; 4] = [[1.0, 1.0, 1.0, 1.0, 1.0, 1.0], [2.0, 2.0, 2.0, 2.0, 2.0, 2.0], [1.0, 2.0, 0.5, 3.0, 1.5, 0.75], [3.0, 6.0, 1.5, 9.0, 4.5, 2.25]];
 
 fn axes_agree3(a: &SvdBasis3, b: &SvdBasis3) -> bool {
     // per axis up to sign where the singular-value gaps are clear
@@ -280,8 +288,11 @@ fn judge_svd3(case: &Case, l: &mut Local) {
         l.outcome(hash_of(&(rank, w.is_some())));
         results.push(b);
     }
+    // singular values are compared as the statement gives them a meaning: through their squares (variances times n);
+    // a vanishing singular value is only determined to the square root of the rounding error of its square
+    let sv_same = |a: f64, b: f64, top: f64| (a * a - b * b).abs() <= 1e-9 * (1.0 + top * top);
     let close = |a: &SvdBasis3, b: &SvdBasis3| (a.center - b.center).norm() <= 1e-10 && axes_agree3(a, b);
-    l.check("unit weights equal no weights", "", close(&results[0], &results[1]) && (0..3).all(|i| (results[0].sv[i] - results[1].sv[i]).abs() <= 1e-9), mk, || format!("{:?} vs {:?}", results[0].sv, results[1].sv));
+    l.check("unit weights equal no weights", "", close(&results[0], &results[1]) && (0..3).all(|i| sv_same(results[0].sv[i], results[1].sv[i], results[0].sv[0])), mk, || format!("{:?} vs {:?}", results[0].sv, results[1].sv));
     l.check("uniformly scaling the weights leaves centre and axes unchanged", "uniform", close(&results[1], &results[2]), mk, || {
         format!("weights 1 -> centre {:?} axes {:?}; weights 2 -> centre {:?} axes {:?}", results[1].center, results[1].basis, results[2].center, results[2].basis)
     });
@@ -294,14 +305,14 @@ fn judge_svd3(case: &Case, l: &mut Local) {
     let bm = SvdBasis3::from_points(&moved, None);
     let mut ok = d3(&bm.center, &(iso * results[0].center)) <= 1e-9;
     for i in 0..3 {
-        ok &= (bm.sv[i] - results[0].sv[i]).abs() <= 1e-9;
+        ok &= sv_same(bm.sv[i], results[0].sv[i], results[0].sv[0]);
     }
     let rotated = SvdBasis3 { basis: [iso * results[0].basis[0], iso * results[0].basis[1], iso * results[0].basis[2]], sv: results[0].sv, center: iso * results[0].center, n };
     ok &= axes_agree3(&rotated, &bm);
     l.check("decomposition is equivariant under rigid motion", "", ok, mk, || format!("sv {:?} vs {:?}", bm.sv, results[0].sv));
     // weighted equivariance of the singular values
     let bw = SvdBasis3::from_points(&moved, Some(&WEIGHTS[2][..n]));
-    l.check("weighted decomposition is equivariant under rigid motion", "", (0..3).all(|i| (bw.sv[i] - results[3].sv[i]).abs() <= 1e-9), mk, || format!("{:?} vs {:?}", bw.sv, results[3].sv));
+    l.check("weighted decomposition is equivariant under rigid motion", "", (0..3).all(|i| sv_same(bw.sv[i], results[3].sv[i], results[3].sv[0])), mk, || format!("{:?} vs {:?}", bw.sv, results[3].sv));
     // frame from the basis
     if rank == 3 {
         let f: Iso3 = (&results[0]).into();
@@ -440,7 +451,8 @@ pub fn cases(tier: Tier) -> Vec<Case> {
             out.push(Case { kind: "basisframe".into(), a, b, idx: vec![] });
         }
     }
-    for m in [4usize, 5] {
+    let sizes: &[usize] = if tier == Tier::Quick { &[4, 5] } else { &[4, 5, 6] };
+    for m in sizes.iter().copied() {
         for (k, idx) in multisets(27, m).into_iter().enumerate() {
             if tier == Tier::Quick && (k as u64 + seed()) % 4 != 0 {
                 continue;
@@ -448,7 +460,7 @@ pub fn cases(tier: Tier) -> Vec<Case> {
             out.push(Case { kind: "svd3".into(), a: 5, b: k % 64, idx });
         }
     }
-    for m in [3usize, 4, 5] {
+    for m in [3usize, 4, 5, 6] {
         for idx in multisets(9, m) {
             out.push(Case { kind: "svd2".into(), a: 0, b: 0, idx });
         }
@@ -465,9 +477,9 @@ pub fn cases(tier: Tier) -> Vec<Case> {
 
 pub fn run(tier: Tier) -> i32 {
     let mut cx = Ctx::new("C19", tier, "exploration");
-    cx.rule = "frames: every ordered pair of the 124 non-zero vectors of {-2..2}^3 (parallel pairs included) x 6 two-vector constructors x 2 origins; basis-to-isometry builders over the 24 exact signed-permutation rotations (incl. every exact half turn), general and oblique half-turn rotations x 3 origins; principal axes: every multiset of 4 and 5 points of the 3x3x3 lattice (every 4th in the quick tier) x {no weights, unit, 2x unit, pattern, 3x pattern} and every multiset of 3..5 points of the 3x3 lattice; planes: every ordered triple of the 3x3x3 lattice. distinct = distinct cases".into();
-    cx.bounds = json!({"vectors": vecs().len(), "rotations": rotations().len(), "svd3_multiset_sizes": [4, 5], "svd3_subsampling": tier.pick(4, 1)});
-    cx.require(&["parallel pair", "orthogonal pair", "oblique pair", "half-turn rotation", "other rotation", "coincident point set", "collinear point set", "planar point set", "generic point set", "exactly zero singular value", "2D point set", "plane through three points", "plane through a scaled triple"]);
+    cx.rule = "frames: every ordered pair of the 124 non-zero vectors of {-2..2}^3 (parallel pairs included) x 6 two-vector constructors x 2 origins; basis-to-isometry builders over the 24 exact signed-permutation rotations (incl. every exact half turn), general and oblique half-turn rotations x 3 origins; principal axes: every multiset of 4 and 5 (thorough: also 6) points of the 3x3x3 lattice (every 4th in the quick tier) x {no weights, unit, 2x unit, pattern, 3x pattern} and every multiset of 3..6 points of the 3x3 lattice; planes: every ordered triple of the 3x3x3 lattice. distinct = distinct cases".into();
+    cx.bounds = json!({"vectors": vecs().len(), "rotations": rotations().len(), "svd3_multiset_sizes": if tier == Tier::Quick { vec![4, 5] } else { vec![4, 5, 6] }, "svd3_subsampling": tier.pick(4, 1)});
+    cx.require(&["parallel pair", "orthogonal pair", "oblique pair", "half-turn rotation", "other rotation", "coincident point set", "collinear point set", "planar point set", "generic point set", "exactly zero singular value", "2D point set", "plane through three points", "plane through a scaled triple", "vector pair of very different or very small lengths"]);
     cx.assume("axes are compared per axis up to sign where the singular-value gap exceeds 1e-6, singular values and centres always; weighted singular values are not given a variance meaning");
     let cs = cases(tier);
     let l = sweep(&cs, judge);
